@@ -13,6 +13,17 @@
 //!   reject <split> <k> hashes|name create(C[..split]) then update(C with record k changed) -> `err …`
 //!   rejectperm <split> front|swap  create(C[..split]) then update(new record in front | first two swapped) -> `err …`
 //!   truncate <split> <m>           create(C[..split]) then update(C[..m]), m < split -> scan
+//!   faulty <split> <threads> <seed> <ids> update|create err|panic mid|end
+//!                                  FAULT INJECTION.  A build whose storage cannot deliver the signatures of
+//!                                  the datasets <ids> (`+`-separated; a `Storage` wrapper whose `load` returns
+//!                                  Err / panics for their internal locations): `update`: create(C[..split]),
+//!                                  reopen, update(C over the faulty storage); `create`: create(C over the
+//!                                  faulty storage) on a fresh directory — inside a pool of <threads> with
+//!                                  jitter; the build aborts (the panic travels out of the pool after every
+//!                                  other worker has finished its datasets), leaving a PROCESSED set with
+//!                                  HOLES.  `mid` -> verdict of the invariants on what the aborted build left; `end` -> the build is
+//!                                  then repeated with the healthy storage (open + update(C) / create(C) on
+//!                                  the same directory) -> scan, which must be the reference
 //!   reduce <polish tree>           N = node, I = identity, L<d> = leaf; h2c_* wrappers -> `<h:ids;…> cols=ok|bad`
 //!   mergedb <tokens>               real merge operator through a scratch RocksDB: P<ids> put (first
 //!                                  only), L<ids> merge operand, F flush, C compact -> `<variant>:<ids>`
@@ -26,7 +37,9 @@ use sourmash::index::revindex::mem_revindex;
 use sourmash::index::revindex::verif_hooks as vh;
 use sourmash::index::revindex::{RevIndex, RevIndexOps};
 use sourmash::selection::Selection;
+use sourmash::collection::Collection;
 use sourmash::signature::Signature;
+use sourmash::storage::{InnerStorage, Storage, StorageArgs, StorageError};
 use std::collections::BTreeMap;
 use std::path::Path;
 use std::sync::atomic::{AtomicU64, Ordering};
@@ -415,6 +428,61 @@ fn gen(a: &Args) {
             o.op(&format!("reduce {}", toks.join(" ")));
         }
     }
+    // --- fault sequences (generated last: the streams above are the same requests as before): an initial
+    // build plus an extension that ABORTS because some signatures cannot be loaded, then the same extension
+    // again with everything readable
+    let n = if thorough { 500 } else { 36 };
+    let nlarge = if thorough { 12 } else { 2 };
+    for ci in 0..n + nlarge {
+        let c = if ci < n {
+            let mut c = rand_coll(&mut r, 10);
+            while c.len() < 3 {
+                c.push(vec![r.below(40), 100 + r.below(5)]);
+            }
+            c
+        } else {
+            let sizes = large_sizes(&mut r, ci);
+            large_coll(&mut r, &sizes)
+        };
+        o.case(&format!("coll {}", show_coll(&c)));
+        let nd = c.len() as u64;
+        let nreq = if ci < n { 3 } else { 2 };
+        for k in 0..nreq {
+            let via = if k == 2 || (ci >= n && k == 1) { "create" } else { "update" };
+            // at least two datasets are new, the failing ones are mostly the FIRST new ones (later ones get
+            // indexed by the other workers: the processed set is then not a prefix of the collection)
+            let split = if via == "create" { 0 } else { r.range(if ci % 5 == 0 { 0 } else { 1 }, nd - 2) };
+            let mut fails: Vec<u64> = vec![];
+            match r.below(4) {
+                0 | 1 => fails.push(split),
+                2 => {
+                    fails.push(split);
+                    if split + 2 < nd {
+                        fails.push(r.range(split + 1, nd - 2));
+                    }
+                }
+                _ => {
+                    for d in split..nd {
+                        if r.chance(1, 3) {
+                            fails.push(d);
+                        }
+                    }
+                    if fails.is_empty() {
+                        fails.push(r.range(split, nd - 1));
+                    }
+                }
+            }
+            fails.dedup();
+            let ids = fails.iter().map(|x| x.to_string()).collect::<Vec<_>>().join("+");
+            let t = *r.pick(&[2u64, 2, 3, 4, 4, 1, 8]);
+            let seed = r.bits(16);
+            let how = if r.chance(1, 2) { "err" } else { "panic" };
+            if k == 0 {
+                o.op(&format!("faulty {} {} {} {} {} {} mid", split, t, seed, ids, via, how));
+            }
+            o.op(&format!("faulty {} {} {} {} {} {} end", split, t, seed, ids, via, how));
+        }
+    }
 }
 
 // ------------------------------------------------------------------------------------ exec
@@ -486,6 +554,18 @@ fn sigs_of(c: &[Vec<u64>]) -> Vec<Signature> {
 }
 
 fn scan(dir: &Path) -> String {
+    let (h, p) = scan_raw(dir);
+    format!(
+        "H {} P {}",
+        show_table(&h),
+        match p {
+            Some(p) => show_nats(p.iter().map(|x| *x as u64)),
+            None => "absent".into(),
+        }
+    )
+}
+
+fn scan_raw(dir: &Path) -> (BTreeMap<u64, Vec<u32>>, Option<Vec<u32>>) {
     let db = vh::open_scratch_db(dir);
     let cf = db.cf_handle(vh::HASHES_CF).unwrap();
     let mut h = BTreeMap::new();
@@ -502,14 +582,39 @@ fn scan(dir: &Path) -> String {
         ids.sort_unstable();
         ids
     });
-    format!(
-        "H {} P {}",
-        show_table(&h),
-        match p {
-            Some(p) => show_nats(p.iter().map(|x| *x as u64)),
-            None => "absent".into(),
+    (h, p)
+}
+
+/// what an ABORTED build may leave behind (which datasets the other workers got to is up to rayon's
+/// splitting): every dataset marked processed has all its hashes posted, every posting is genuine and
+/// belongs to a processed dataset (a worker finishes the dataset it has started), the datasets of the
+/// initial build are all there, a dataset whose signature could not be loaded left nothing
+fn abort_invariants(coll: &[Vec<u64>], dir: &Path, old: usize, fails: &[usize]) -> String {
+    let (h, p) = scan_raw(dir);
+    let p = p.unwrap_or_default();
+    for d in 0..old {
+        if !p.contains(&(d as u32)) {
+            return format!("inv-bad old-dataset-lost {}", d);
         }
-    )
+    }
+    for &d in &p {
+        if d as usize >= coll.len() || fails.contains(&(d as usize)) {
+            return format!("inv-bad processed {}", d);
+        }
+        for x in &coll[d as usize] {
+            if !h.get(x).map(|ids| ids.contains(&d)).unwrap_or(false) {
+                return format!("inv-bad marker-without-hash {} {}", d, x);
+            }
+        }
+    }
+    for (x, ids) in &h {
+        for d in ids {
+            if !p.contains(d) || !coll[*d as usize].contains(x) {
+                return format!("inv-bad posting {} {}", x, d);
+            }
+        }
+    }
+    "inv-ok".into()
 }
 
 /// a table `hash -> ids`: the exact list up to 100 keys; beyond, a digest: number of keys, number of
@@ -588,8 +693,109 @@ fn eval_mtree(toks: &[&str], pos: &mut usize) -> Vec<u8> {
     }
 }
 
+/// a storage that delegates to `inner`, except that `load` of the paths in `bad` fails: `Err`, or a panic
+struct Faulty {
+    inner: InnerStorage,
+    bad: Vec<String>,
+    panic: bool,
+}
+
+impl Storage for Faulty {
+    fn save(&self, path: &str, content: &[u8]) -> sourmash::Result<String> {
+        self.inner.save(path, content)
+    }
+    fn load(&self, path: &str) -> sourmash::Result<Vec<u8>> {
+        if self.bad.iter().any(|b| b == path) {
+            if self.panic {
+                panic!("injected fault: load {}", path);
+            }
+            return Err(StorageError::DataReadError(path.into()).into());
+        }
+        self.inner.load(path)
+    }
+    fn args(&self) -> StorageArgs {
+        self.inner.args()
+    }
+    fn spec(&self) -> String {
+        self.inner.spec()
+    }
+}
+
+fn shm_scratch_dir() -> tempfile::TempDir {
+    let shm = Path::new("/dev/shm");
+    if shm.is_dir() {
+        if let Ok(d) = tempfile::Builder::new().prefix("verif-idx-").tempdir_in(shm) {
+            return d;
+        }
+    }
+    scratch_dir()
+}
+
+/// `faulty`: see the module comment
+fn faulty(st: &St, ws: &[&str]) -> String {
+    let split: usize = ws[1].parse().unwrap();
+    let threads: usize = ws[2].parse().unwrap();
+    let seed: u64 = ws[3].parse().unwrap();
+    let fails: Vec<usize> = ws[4].split('+').filter(|x| !x.is_empty() && *x != "-").map(|x| x.parse().unwrap()).collect();
+    let update = ws[5] == "update";
+    let panic = ws[6] == "panic";
+    let tmp = shm_scratch_dir();
+    let paths = write_sig_files(&tmp.path().join("sigs"), &sigs_of(&st.coll));
+    let dir = tmp.path().join("idx");
+    if update {
+        let idx = in_pool(threads, || RevIndex::create(&dir, fs_collection(&paths[..split.min(paths.len())]), false)).unwrap();
+        drop(idx);
+    }
+    // the collection over a storage that cannot deliver the chosen signatures
+    let broken = || -> sourmash::collection::CollectionSet {
+        let good = Collection::from_paths(&paths).unwrap();
+        let bad: Vec<String> = fails
+            .iter()
+            .filter(|i| **i < good.len())
+            .map(|i| good.manifest()[*i].internal_location().to_string())
+            .collect();
+        let f = Faulty { inner: good.storage().clone(), bad, panic };
+        Collection::new(good.manifest().clone(), InnerStorage::new(f)).try_into().unwrap()
+    };
+    let r = std::panic::catch_unwind(std::panic::AssertUnwindSafe(|| {
+        with_jitter(seed, true, || {
+            in_pool(threads, || {
+                if update {
+                    RevIndex::open(&dir, false, None).unwrap().update(broken()).map(|_| ())
+                } else {
+                    RevIndex::create(&dir, broken(), false).map(|_| ())
+                }
+            })
+        })
+    }));
+    vh::set_point_callback(None);
+    let aborted = match r {
+        Err(_) => "aborted",
+        Ok(Err(_)) => "failed",
+        Ok(Ok(())) => "completed",
+    };
+    if ws[7] == "mid" {
+        return format!("{} {}", aborted, abort_invariants(&st.coll, &dir, if update { split } else { 0 }, &fails));
+    }
+    // again, everything readable
+    let r = with_jitter(seed ^ 0x5555, true, || {
+        in_pool(threads, || {
+            if update {
+                RevIndex::open(&dir, false, None).and_then(|idx| idx.update(fs_collection(&paths))).map(|_| ())
+            } else {
+                RevIndex::create(&dir, fs_collection(&paths), false).map(|_| ())
+            }
+        })
+    });
+    match r {
+        Ok(()) => format!("{} {}", aborted, scan(&dir)),
+        Err(e) => format!("{} err {:?}", aborted, e),
+    }
+}
+
 fn step(st: &mut St, ws: &[&str]) -> String {
     match ws[0] {
+        "faulty" => faulty(st, ws),
         "case" => {
             st.coll = if ws.get(2) == Some(&"coll") {
                 ws[3].split(';').map(parse_nats).collect()
